@@ -7,8 +7,9 @@ import semgen
 
 def items_for(ctx, thorough):
     rnd = random.Random(ctx.seed)
-    k1 = sem.enum_chains(ctx, 1, ["plain", "go"], maxdeco=1, tag="k1")
-    k2 = sem.enum_chains(ctx, 2, ["plain", "go"], maxdeco=1, tag="k2")
+    CONC = list(semgen.FLOW_FAMS) + ["conc"]      # + steps that contain goroutines of their own
+    k1 = sem.enum_chains(ctx, 1, ["plain", "go"], maxdeco=1, tag="k1", fams=CONC)
+    k2 = sem.enum_chains(ctx, 2, ["plain", "go"], maxdeco=1, tag="k2", fams=CONC)
     items = []
     for c in sorted({tuple(c) for c in k1}):
         hasgo = any(d == "go" for _, d in c)
